@@ -56,6 +56,9 @@ func (e *Engine) harnessAPI2(name string, args []Value, fn *ssa.Function) (Value
 		return p, true
 	case "vUTF8":
 		return e.utf8ValidOf(args[0].(StrV).r), true
+	case "vEnvFailed":
+		// did an environment primitive (signing, entropy) fail on this path? Natively they never do.
+		return e.tt.Bool(e.envFailures > 0), true
 	case "vInterleaved":
 		// the solver side runs the bodies one after the other: what makes the interleavings equivalent is decided
 		// by the frame condition (no writes to shared state) and the sync.Pool model; natively they run as goroutines
